@@ -399,6 +399,32 @@ func immutStream(r *Run) {
 			r.Emit(c, replayers["immut"](r, f))
 		}
 	}
+	// a fixed family first: every array filter applied DIRECTLY to caller-owned arrays of each shape
+	// (generic []any with nils / duplicates / unsorted, typed slices, nested), each rendered twice
+	{
+		i := func(n int64) *V { return VInt(0, n) }
+		arrays := []*V{
+			VAnys(VStr("a"), VNil(), VStr("b"), VNil(), VStr("c")), VAnys(i(3), i(1), i(2), i(1)), VAnys(VNil(), i(2), VNil()),
+			VAnys(VStr("b"), VStr("a"), VStr("b")), VAnys(VAnys(i(2), i(1)), VAnys(i(1))), VSlice(TInt(0), i(3), i(1), i(2)),
+			VSlice(TStr, VStr("b"), VStr("a")), VAnys(VStrMap(SKV("k", i(2))), VStrMap(SKV("k", i(1))), VStrMap()), VAnys(),
+		}
+		filters := []string{"compact", "sort", "reverse", "uniq", "concat: a", "first", "last", "join: ','", "map: 'k'", "size", "sort: 'k'", "sort_natural",
+			"compact | sort", "reverse | first", "uniq | join"}
+		for ai, arr := range arrays {
+			for _, f := range filters {
+				if !r.Mine() {
+					continue
+				}
+				c := immutCaseT{cfg: engineCfg{}, srcs: []string{"{{ a | " + f + " }}|{{ a | join: ',' }}|{{ a | size }}"},
+					envs: []map[string]*V{{"a": arr}}, ops: []immutOp{{0, 0, 'R'}, {0, 0, 'R'}, {0, 0, 'S'}}}
+				cl := c.line()
+				res := immutCase(r, c, cl)
+				r.Count(fmt.Sprintf("fixed-family array %d", ai))
+				r.Nontrivial(cl)
+				r.Emit(cl, res)
+			}
+		}
+	}
 	nPools, perPool := 60, 8
 	if r.Tier == "thorough" {
 		nPools, perPool = 700, 10
